@@ -203,8 +203,34 @@ def crc_and_create(prog, rep):
                 for b2, t2 in cr.calls():
                     if b2 in c_ and (t2.get("callee") or "").endswith("RawItems as std::iter::Iterator>::next"):
                         okc = True
+    updates_append_only(prog, rep, rule)
     rep.ob(rule, "every item of `to` gets an update", okc and bool(ups),
            "prepare_update_item + create_item_delta run once per item yielded by to.items()", cr.loc())
+
+
+def updates_append_only(prog, rep, rule="R4-crc-and-create"):
+    """a delta under construction only grows: nothing in Delta removes single entries from updated_items (only clear() empties it),
+    so an update recorded for an item of `to` is still there when the delta is written (an `unchanged item` optimisation that
+    drops all-zero updates also drops new items whose data is zero)"""
+    n = 0
+    bad = []
+    for k, b in prog.bodies.items():
+        if b.is_test or not (k.startswith(S + "Delta::") or k.startswith("<" + S + "Delta")):
+            continue
+        ir = None
+        for bi, t in b.calls():
+            f = (t.get("callee") or "")
+            if not (f.startswith("std::collections::") and f.rsplit("::", 1)[-1] in ("remove", "remove_entry", "retain", "pop_first", "pop_last", "split_off", "extract_if")):
+                continue
+            ir = ir or IR(b)
+            if t["args"] and "updated_items" in show(ir.term_operand(bi, t["args"][0])):
+                bad.append((k, b.loc(t.get("ln"))))
+        n += 1
+    rep.floor(rule, n, 5, "bodies of Delta scanned for removals from updated_items")
+    rep.ob(rule, "updated_items only grows while a delta is built", not bad,
+           "no function of Delta removes single entries from updated_items" if not bad else
+           "%s removes entries from updated_items: an update recorded for an item of `to` can be dropped again" % bad[0][0],
+           bad[0][1] if bad else None)
 
 
 def item_header_words(prog, rep):
